@@ -676,11 +676,25 @@ static void reb_whfast_operator_U(struct reb_simulation* const r, double a, doub
     reb_whfast_operator_Y(r, a, -b); 
     reb_whfast_kepler_step(r, -a);   
 }
+// Inverse of reb_whfast_operator_U(r, a, b)
+static void reb_whfast_operator_Uinv(struct reb_simulation* const r, double a, double b){
+    reb_whfast_kepler_step(r, a);   
+    reb_whfast_operator_Y(r, -a, -b); 
+    reb_whfast_operator_Y(r, -a, b); 
+    reb_whfast_kepler_step(r, -a);   
+}
 static void reb_whfast_apply_corrector2(struct reb_simulation* r, double inv){
-    double a = 0.5 * inv * r->dt;
-    double b = reb_whfast_corrector2_b * inv * r->dt;
-    reb_whfast_operator_U(r, a, b); 
-    reb_whfast_operator_U(r, -a, b);
+    double a = 0.5 * r->dt;
+    double b = reb_whfast_corrector2_b * r->dt;
+    if (inv>0.){
+        reb_whfast_operator_U(r, a, b); 
+        reb_whfast_operator_U(r, -a, b);
+    }else{
+        // The inverse applies the inverse operators in reverse order.
+        // (Flipping the signs of a and b does not invert the corrector: it is even in both.)
+        reb_whfast_operator_Uinv(r, -a, b); 
+        reb_whfast_operator_Uinv(r, a, b);
+    }
 }
 
 void reb_whfast_calculate_jerk(struct reb_simulation* r){
